@@ -4,6 +4,7 @@
 package main
 
 import (
+	"context"
 	"crypto/tls"
 	"crypto/x509"
 	"encoding/json"
@@ -14,6 +15,7 @@ import (
 	"time"
 
 	plugin "github.com/hashicorp/go-plugin"
+	"google.golang.org/grpc"
 
 	"verif/e3/kv"
 )
@@ -34,6 +36,20 @@ type Conf struct {
 	InitDelayMs int               `json:"init_delay_ms"` // the plugin's registration hook takes this long
 	Test        bool              `json:"test"`
 	Impostor    string            `json:"impostor"` // see impostor.go
+	AckShutdown bool              `json:"ack_shutdown"`
+}
+
+// ackShutdown answers the controller's Shutdown RPC with its (empty) reply and runs go-plugin's own handler, which
+// stops the server, 100 ms later: a plugin that acknowledges the request before it goes away.
+func ackShutdown(ctx context.Context, req any, info *grpc.UnaryServerInfo, handler grpc.UnaryHandler) (any, error) {
+	if info.FullMethod != "/plugin.GRPCController/Shutdown" {
+		return handler(ctx, req)
+	}
+	go func() {
+		time.Sleep(100 * time.Millisecond)
+		handler(context.Background(), req)
+	}()
+	return req, nil // request and reply are the same empty message type
 }
 
 func set(proto string, impl *kv.Impl) plugin.PluginSet {
@@ -73,6 +89,11 @@ func main() {
 	}
 	if c.GRPCServer {
 		sc.GRPCServer = plugin.DefaultGRPCServer
+		if c.AckShutdown {
+			sc.GRPCServer = func(opts []grpc.ServerOption) *grpc.Server {
+				return grpc.NewServer(append(opts, grpc.ChainUnaryInterceptor(ackShutdown))...)
+			}
+		}
 	}
 	if c.TLS == "provider-fail" {
 		sc.TLSProvider = func() (*tls.Config, error) { return nil, errors.New("no certificate available") }
